@@ -7,6 +7,7 @@ import Exmex.Spec.Split
 import Exmex.Proofs.FlattenDefs
 import Exmex.Proofs.BumpAux
 namespace Exmex
+open BumpAux
 
 /-- what the bump rule needs: flagged operators are associative (same table index = same function),
     and unary chains only sit on operators that are right-most lowest in their group -/
